@@ -2,10 +2,12 @@
 # Run once after a fresh restore, offline: builds the framework from files on disk only.
 set -e
 cd "$(dirname "$0")"
+HERE="$(pwd)"
+REPO="${VERIF_REPO:-/repo}"
 export CARGO_NET_OFFLINE=true
 mkdir -p build evidence replays target
-ln -sfn /repo repo-link
+ln -sfn "$REPO" repo-link
 gcc -O2 -Wall -Wextra -Wno-nonnull-compare -shared -fPIC -o build/libsimenv.so shim/simenv_shim.c -ldl
-(cd sim && RUSTFLAGS="--cfg grex_verif" CARGO_TARGET_DIR=/verif/target/sim cargo build --release --offline --bins)
-env -u RUSTFLAGS CARGO_TARGET_DIR=/verif/target/repo-cli cargo build --release --offline --bin grex --manifest-path /repo/Cargo.toml
+(cd sim && RUSTFLAGS="--cfg grex_verif" CARGO_TARGET_DIR="$HERE/target/sim" cargo build --release --offline --bins)
+env -u RUSTFLAGS CARGO_TARGET_DIR="$HERE/target/repo-cli" cargo build --release --offline --bin grex --manifest-path "$REPO/Cargo.toml"
 echo "setup ok"
